@@ -110,9 +110,11 @@ theorem saveBlock_silent (r : Replica) (e : Env) (q : CommitQC) : ∀ x ∈ (sav
   · intro x hx; cases hx
   · split
     · intro x hx; cases hx
-    · intro x hx
-      simp only [List.mem_singleton] at hx
-      subst hx; rfl
+    · split
+      · intro x hx
+        simp only [List.mem_singleton] at hx
+        subst hx; rfl
+      · intro x hx; cases hx
 
 theorem processCommitQC_spec (r : Replica) (e : Env) (q : CommitQC) :
     Agree (processCommitQC r e q).1.toDurable r.toDurable ∧
